@@ -757,7 +757,48 @@ func runC10(c *Ctx) {
 			"sshFxpSymlinkPacket":          {{"Target", "Linkpath"}, {"Filepath", "Targetpath"}},
 			"sshFxpExtendedPacketHardlink": {{"Target", "Newpath"}},
 		}
-		if sw == nil {
+		// by running requestFromPacket on a packet of each type whose fields are tokens (whatever way it is written);
+		// by reading the arms of its type switch when it cannot be run
+		evaluated := true
+		evalFields := map[string]map[string]string{}
+		for tn := range wants {
+			f, ok := p.requestFieldsOf(tn)
+			if !ok {
+				evaluated = false
+				break
+			}
+			evalFields[tn] = f
+		}
+		if evaluated {
+			var tns []string
+			for tn := range wants {
+				tns = append(tns, tn)
+			}
+			sort.Strings(tns)
+			for _, tn := range tns {
+				got := evalFields[tn]
+				for _, w := range wants[tn] {
+					g := strings.TrimPrefix(strings.TrimPrefix(got[w.dst], "copy:"), "clean:")
+					if g == "" {
+						g = "?"
+					}
+					if w.dst == "Target" && !strings.HasPrefix(got[w.dst], "clean:") {
+						g += " (not made absolute against the start directory)"
+					}
+					c.check(g == w.src, "R3", fmt.Sprintf("%s: Request.%s ← %s", tn, w.dst, w.src), p.Pos(rfp.Pos()), "copied from the packet's "+w.src, fmt.Sprintf("Request.%s of a %s is taken from %q, expected %q", w.dst, tn, g, w.src))
+				}
+				if tn == "sshFxpOpenPacket" {
+					conveyed := false
+					for _, l := range got {
+						if l == "Flags" {
+							conveyed = true
+						}
+					}
+					c.check(conveyed, "R3", "sshFxpOpenPacket: attribute flags reach the handler", p.Pos(rfp.Pos()), "copied into the Request",
+						"the attribute flags word of OPEN is not copied into the Request (Request.Flags holds pflags): AttrFlags() and Attributes() of an Open request interpret the open flags as attribute flags, so the handler cannot read the attributes the client sent")
+				}
+			}
+		} else if sw == nil {
 			c.und("R3", "requestFromPacket switch", p.Pos(rfp.Pos()), "no type switch")
 		} else {
 			head := switchHead(rfp, sw)
